@@ -330,6 +330,7 @@ impl SparseBinaryMatrix {
                         ' lemma_key_col_cnt(v.elements@, self.logical_col_to_physical@, self.physical_col_to_logical@, self.width as int, v.elements@.len() as int, start_col as int, end_col as int);'
                         ' lemma_col_cnt_is_sp_cnt(*self, row as int, start_col as int, end_col as int); }')])
     ND = 'self.num_dense_columns as int'
+    PAIR = {}
     u.fn('src/sparse_matrix.rs', 'add_assign_rows', impl=IMPLT, ret='r', rules=['A1'],
          requires=['sp_wf(*old(self))', '(dest as int) < old(self).height', '(src as int) < old(self).height', 'dest != src',
                    'start_col == 0 || start_col as int == old(self).width - old(self).num_dense_columns',
@@ -341,9 +342,10 @@ impl SparseBinaryMatrix {
                   # row addition over GF(2): the dense tail always, the sparse part when start_col == 0; every other row untouched
                   'forall |a: int, b: int| sp_in(*old(self), a, b) ==> #[trigger] sp_cell(*final(self), a, b) == ('
                   ' if a == dest as int && (is_dense_col(*old(self), b) || start_col == 0) { sp_cell(*old(self), dest as int, b) != sp_cell(*old(self), src as int, b) } else { sp_cell(*old(self), a, b) })'],
-         resubst=[(r'let \(dest_row, temp_row\) =\s*get_both_indices\(&mut self\.sparse_elements, physical_dest, physical_src\);', '', 'S6-pair-projection'),
-                  (r'temp_row\.len\(\)', 'self.sparse_elements[physical_src].len()', 'S6-pair-projection'),
-                  (r'dest_row\.add_assign\(temp_row\)', 'verif_rows_add_assign(&mut self.sparse_elements, physical_dest, physical_src)', 'S6-pair-projection'),
+         # the two index arguments of get_both_indices are carried over to the model call in the order the code gives them
+         resubst=[(r'let \(dest_row, temp_row\) =\s*get_both_indices\(&mut self\.sparse_elements, (\w+), (\w+)\);', lambda m, st=PAIR: (st.update(i=m.group(1), j=m.group(2)), '')[1], 'S6-pair-projection'),
+                  (r'temp_row\.len\(\)', lambda m, st=PAIR: 'self.sparse_elements[%s].len()' % st['j'], 'S6-pair-projection'),
+                  (r'dest_row\.add_assign\(temp_row\)', lambda m, st=PAIR: 'verif_rows_add_assign(&mut self.sparse_elements, %s, %s)' % (st['i'], st['j']), 'S6-pair-projection'),
                   (r'self\.dense_elements\[dest_word \+ word\] \^= self\.dense_elements\[src_word \+ word\];', 'self.dense_elements.set(dest_word + word, self.dense_elements[dest_word + word] ^ self.dense_elements[src_word + word]);', 'S8-index-op-assign'),
                   (r'(?s)#\[cfg\(debug_assertions\)\]\s*\{.*?\n            \}', '', 'cfg-debug-assertions-dropped'),
                   (r'#\[cfg\(debug_assertions\)\]\s*self\.verify\(\);', '', 'cfg-debug-assertions-dropped')],
